@@ -166,6 +166,7 @@ class Bus (objects.DBusObject):
         self.clients = {}  # maps unique_bus_id to client connection
         self.busNames = {}  # maps name to list of queued connections
         self.router = router.MessageRouter()
+        self.matchRuleIds = {}  # (unique name, rule text) => [router ids]
         self.next_id = 1
         self.obj_handler = objects.DBusObjectHandler(self)
 
@@ -187,6 +188,9 @@ class Bus (objects.DBusObject):
         """
         for rule_id in proto.matchRules:
             self.router.delMatch(rule_id)
+
+        for key in [k for k in self.matchRuleIds if k[0] == proto.uniqueName]:
+            del self.matchRuleIds[key]
 
         for busName in proto.busNames.keys():
             self.dbus_ReleaseName(busName, proto.uniqueName)
@@ -502,7 +506,32 @@ class Bus (objects.DBusObject):
                         kwargs['args'] = []
                     kwargs['args'].append((int(k[3:]), value))
 
-        self.router.addMatch(caller.sendMessage, **kwargs)
+        rule_id = self.router.addMatch(caller.sendMessage, **kwargs)
+
+        # The rule belongs to the connection that added it: it goes away
+        # with the connection or through RemoveMatch.
+        caller.matchRules.add(rule_id)
+        self.matchRuleIds.setdefault(
+            (caller.uniqueName, rule), []).append(rule_id)
+
+    def dbus_RemoveMatch(self, rule, dbusCaller=None):
+        caller = self.clients[dbusCaller]
+
+        ids = self.matchRuleIds.get((caller.uniqueName, rule), None)
+
+        if not ids:
+            raise DError(
+                'org.freedesktop.DBus.Error.MatchRuleNotFound',
+                'The given match rule wasn\'t found and can\'t be removed',
+            )
+
+        rule_id = ids.pop()
+
+        if not ids:
+            del self.matchRuleIds[(caller.uniqueName, rule)]
+
+        caller.matchRules.discard(rule_id)
+        self.router.delMatch(rule_id)
 
     def dbus_GetNameOwner(self, busName):
         if busName.startswith(':'):
